@@ -1,6 +1,8 @@
 """C23 — a random array is one fixed realization."""
 from __future__ import annotations
 
+import random
+
 import warnings
 
 import cloudpickle
@@ -56,6 +58,7 @@ def run(chk: Check):
                 "NumPy function of that one realization; non-trivial = array with more than one block")
     chk.assumptions = ["NumPy's SeedSequence / bit generators are an oracle (the realization itself is not compared with NumPy's stream)"]
     chk.run_proofs()
+    model_family(chk, da)
     rng = chk.rng
     n = 2500 if chk.tier == "thorough" else 160
     for it in range(n):
@@ -115,3 +118,158 @@ def run(chk: Check):
 
 def replay(path):
     print(open(path).read())
+
+
+# ==========================================================================
+# Model correspondence (coq/theories/RngModel.v): the real per-block seeds of Random nodes
+from itertools import product as _product  # noqa: E402
+
+from common import clist, coq_eval_cases, ctuple, cz  # noqa: E402
+
+M_HEADER = "From DA Require Import PyBase RngModel.\nOpen Scope Z_scope.\n"
+A_CASE = "Z * list (list Z) * list (list seed) * nat"
+A_CHK = "Definition chk (c : " + A_CASE + ") : bool := let '(root, sizess, obs, final) := c in arrays_ok root sizess obs final."
+
+
+def seeds_of(x):
+    """[(entropy, spawn key)] of the per-block SeedSequences a Generator-backed Random node derived"""
+    out = []
+    for s in x.expr.bitgens:
+        key = tuple(s.spawn_key)
+        if len(key) != 1:
+            return None
+        out.append((int(s.entropy), int(key[0])))
+    return out
+
+
+def model_family(chk, da):
+    rng = random.Random(f"{chk.pid}-model-family-{chk.seed}")     # own stream: the checks above keep theirs
+    cases, descs = [], []
+    n = 3000 if chk.tier == "thorough" else 250
+    for it in range(n):
+        seed = rng.randint(0, 10 ** 6)
+        g = da.random.default_rng(seed)
+        ss = g._bit_generator._seed_seq
+        specs, obs, sizess = [], [], []
+        problems = []
+        arrays = []
+        for _ in range(rng.choice([1, 2, 3, 4])):
+            rank = rng.choice([1, 2, 2, 3])
+            shape = tuple(rng.choice([1, 2, 3, 5, 8]) for _ in range(rank))
+            chunks = tuple(progs.rand_chunks_for(rng, s) for s in shape)
+            dname = rng.choice(sorted(GEN_DISTS))
+            before = ss.n_children_spawned
+            with warnings.catch_warnings():
+                warnings.simplefilter("ignore")
+                x = GEN_DISTS[dname](g, shape, chunks)
+            sd = seeds_of(x)
+            if sd is None:
+                problems.append("a block seed is not a direct child of the generator's SeedSequence")
+                break
+            nblocks = int(np.prod([len(c) for c in chunks]))
+            specs.append((dname, shape, chunks))
+            arrays.append(x)
+            obs.append(sd)
+            # block sizes as Random._info lays them out (row-major product of the chunks); the model only needs how many
+            sizes = [int(np.prod(b)) for b in _product(*chunks)]
+            sizess.append(sizes)
+            if len(sd) != nblocks:
+                problems.append(f"{len(sd)} seeds for {nblocks} blocks")
+            if [tuple(b) for b in x.expr._info[2]] != [tuple(b) for b in _product(*chunks)]:
+                problems.append("block sizes are not the row-major product of the chunks")
+            if ss.n_children_spawned != before + nblocks:
+                problems.append(f"constructing one array advanced the generator by {ss.n_children_spawned - before}, not by its {nblocks} blocks")
+        chk.count(f"model-arrays:{len(specs)}")
+        chk.case(("rng-model", seed, tuple(specs)), nontrivial=sum(len(o) for o in obs) > 1, sample={"seed": seed, "arrays": specs} if it < 2 else None)
+        if not problems and arrays:
+            # computing, deriving, pickling must not touch the generator or the seeds
+            x = arrays[rng.randrange(len(arrays))]
+            before = ss.n_children_spawned
+            with warnings.catch_warnings():
+                warnings.simplefilter("ignore")
+                x.compute(scheduler="sync")
+                (x + 1).sum().compute(scheduler="sync")
+                z = cloudpickle.loads(cloudpickle.dumps(x))
+            if ss.n_children_spawned != before:
+                problems.append("computing / deriving / pickling advanced the generator")
+            if seeds_of(z) != seeds_of(x):
+                problems.append("the unpickled node has other seeds")
+            # rebuild from the same seed
+            g2 = da.random.default_rng(seed)
+            with warnings.catch_warnings():
+                warnings.simplefilter("ignore")
+                again = [seeds_of(GEN_DISTS[d](g2, sh, ch)) for d, sh, ch in specs]
+            if again != obs:
+                problems.append("rebuilding the same arrays from the same seed gives other seeds")
+        if problems:
+            chk.violation("; ".join(problems[:3]), {"seed": seed, "arrays": specs}, signature={"class": "seeds", "problem": problems[0][:30]})
+            continue
+        cases.append(ctuple(cz(seed), clist(sizess, clist), clist(obs, lambda o: clist(o, lambda p: f"sd {p[0]} {p[1]}")),
+                            f"{ss.n_children_spawned}%nat"))
+        descs.append({"seed": seed, "arrays": specs, "seeds": obs})
+    for i in coq_eval_cases(M_HEADER, A_CASE, A_CHK, cases)[0]:
+        chk.tie_break("rng-model", {"case": descs[i], "literal": cases[i][:800]})
+    chk.traces_validated += len(cases)
+
+    # RandomState: one 16-byte draw per array, per-block seeds derived from it: distinct, stable, deterministic
+    for it in range(n // 5):
+        seed = rng.randint(0, 10 ** 6)
+        shape = tuple(rng.choice([2, 3, 5, 8]) for _ in range(rng.choice([1, 2])))
+        chunks = tuple(progs.rand_chunks_for(rng, s) for s in shape)
+        rs = da.random.RandomState(seed)
+        pos0 = rs._numpy_state.get_state()[2]
+        with warnings.catch_warnings():
+            warnings.simplefilter("ignore")
+            x = rs.normal(1.0, 2.0, size=shape, chunks=chunks)
+            y = rs.normal(1.0, 2.0, size=shape, chunks=chunks)
+            x2 = da.random.RandomState(seed).normal(1.0, 2.0, size=shape, chunks=chunks)
+        sx, sy, sx2 = list(x.expr.bitgens), list(y.expr.bitgens), list(x2.expr.bitgens)
+        nblocks = int(np.prod([len(c) for c in chunks]))
+        problems = []
+        if len(sx) != nblocks or len(set(sx)) != nblocks:
+            problems.append("per-block seeds are not one distinct seed per block")
+        if set(sx) & set(sy):
+            problems.append("two successive arrays share a seed")
+        if sx != sx2:
+            problems.append("rebuilding from the same seed gives other seeds")
+        if list(cloudpickle.loads(cloudpickle.dumps(x)).expr.bitgens) != sx:
+            problems.append("the unpickled node has other seeds")
+        chk.count("model-randomstate")
+        chk.case(("rng-model-rs", seed, shape, chunks), nontrivial=nblocks > 1)
+        if problems:
+            chk.violation("; ".join(problems), {"seed": seed, "shape": shape, "chunks": chunks}, signature={"class": "seeds", "kind": "randomstate", "problem": problems[0][:30]})
+        else:
+            chk.traces_validated += 1
+
+    # array-valued distribution parameters (corpus: findings C23-A, C23-B)
+    def param_case(label, make):
+        chk.count("array-param:" + label)
+        try:
+            with warnings.catch_warnings():
+                warnings.simplefilter("ignore")
+                g = da.random.default_rng(42)
+                x = make(g)
+                before = g._bit_generator._seed_seq.n_children_spawned
+                a = (x + 1).compute(scheduler="sync") - 1
+                b = x.compute(scheduler="sync")
+                after = g._bit_generator._seed_seq.n_children_spawned
+        except Exception as e:  # noqa: BLE001
+            chk.violation(f"a random array with an array-valued parameter cannot be computed: {type(e).__name__}: {str(e)[:80]}", {"case": label},
+                          signature={"class": "array-param-raises", "error": type(e).__name__})
+            return
+        chk.case(("array-param", label), nontrivial=True)
+        if not np.allclose(a, b) or after != before:
+            chk.violation("a derived computation of a random array with an array-valued parameter does not see the realization x.compute() shows "
+                          f"(the Random node is re-constructed while lowering and draws {after - before} new seeds from the generator)",
+                          {"case": label, "spawned_before": before, "spawned_after": after},
+                          signature={"class": "realization", "array_param": True})
+        else:
+            chk.traces_validated += 1
+    param_case("normal(loc=dask array broadcast over size)",
+               lambda g: g.normal(da.from_array(np.arange(3.0), chunks=3), 1.0, size=(4, 3), chunks=(2, 3)))
+    param_case("normal(loc=dask array with the same chunks)",
+               lambda g: g.normal(da.from_array(np.arange(12.0).reshape(4, 3), chunks=(2, 3)), 1.0, size=(4, 3), chunks=(2, 3)))
+    param_case("poisson(lam=dask array, other chunks)",
+               lambda g: g.poisson(da.from_array(np.arange(1.0, 7.0), chunks=2), size=(6,), chunks=3))
+    param_case("uniform(low=dask array)",
+               lambda g: g.uniform(da.from_array(np.arange(6.0), chunks=3), 10.0, size=(6,), chunks=3))
